@@ -203,6 +203,9 @@ impl Builder {
 
             execution.check_for_leaks();
 
+            #[cfg(feature = "verif")]
+            crate::verif::call(crate::verif::Phase::IterationEnd, i, &execution.path);
+
             i += 1;
 
             // Create the next iteration's `tracing` span before trying to step to the next
@@ -211,6 +214,9 @@ impl Builder {
             _span = tracing::info_span!(parent: None, "iter", message = i).entered();
             if let Some(next) = execution.step() {
                 execution = next;
+
+                #[cfg(feature = "verif")]
+                crate::verif::call(crate::verif::Phase::NextPrepared, i, &execution.path);
             } else {
                 info!(parent: None, "Completed in {} iterations", i - 1);
                 return;
